@@ -13,6 +13,31 @@ BASE_NOTE = (
 )
 
 CLAIMS = {
+    "C09": dict(
+        text="Lean theorems (first round): obligations on the regenerated _HASH_TRANSITIONS table (role preserved, "
+             "hash/state consistency, functional, action targets); every write to a file row leaves a row satisfying "
+             "the state/hash invariant and writes UNDECLARED only on detached nodes; every write of a step state "
+             "leaves deferred=>PENDING and holding=>RUNNING; the creator-cycle guard rejects reattaching a node "
+             "below itself. The executable kernel model (all requests) is tied to the code by the kernel "
+             "correspondence over all scopes; the lift of the invariants to all request sequences is not proved yet: "
+             "on generated sequences the full invariant set is evaluated on the real database after every request.",
+        note=BASE_NOTE + "The whole K layer is a model (SQL statements, triggers, recursive CTEs modelled by hand). I4 "
+             "(SUCCEEDED => outputs BUILT) holds per director transaction and is decided on simulated builds, not here.",
+        technique="Lean 4 proof over generated tables and row-level primitives + kernel differential correspondence "
+                  "with an SQL-free invariant oracle",
+        design="9/C09",
+    ),
+    "C20": dict(
+        text="Lean theorems for all strings: translate/translate_back denote the same file from the root as the "
+             "argument from root/HERE/workdir (lexical resolution), results are normalized, canonical and idempotent, "
+             "one location gets one label, affixes are kept exactly when present (partial: not for spellings of the "
+             "root), apply_affixes rejects exactly the documented cases. Correspondence against posixpath, path.Path "
+             "and stepup.core.path on generated paths, working directories and HERE/STEPUP_ROOT values.",
+        note=BASE_NOTE + "Lexical resolution on a symlink-free tree is the stated semantics; posixpath/path.Path are "
+             "modelled and validated by correspondence. make_path_out, short_path and NUL characters are not modelled.",
+        technique="Lean 4 proof on component lists + differential correspondence + realpath oracle on a real tree",
+        design="9/C20",
+    ),
     "C13": dict(
         text="Lean theorems: the byte string fed to SHA-256 for the input digest is uniquely decodable, so equal "
              "streams imply equal label, shell flag and equal finite maps of inputs/variables/overrides "
